@@ -1754,9 +1754,8 @@ fn oracle_c10(plan: &ResolvePlan, obs: &Observations) -> RunResult {
                 _ => None,
             })
             .collect();
-        // forwarding: the forwarder's answer is relayed as it is; what local
-        // data or the cache know about a name the forwarder's answer ends at
-        // is not consulted (that composition is judged under C01, not here)
+        // forwarding: the forwarder's answer is relayed as it is; what the cache
+        // alone knows about a name the forwarder's answer ends at is not consulted
         let is_upstream = |n: &str| {
             !(n.ends_with(AUTH_APEX) || n.ends_with("over.test.") || n.ends_with("cached.test."))
         };
@@ -1765,8 +1764,10 @@ fn oracle_c10(plan: &ResolvePlan, obs: &Observations) -> RunResult {
             && got_links.len() < ref_chain.len()
             && got_links[..] == ref_chain[..got_links.len()]
             && {
+                // (only where the next link is known to the cache alone: an alias
+                // into zones or hosts data is followed locally, fix ff80b11)
                 let (o, t) = &ref_chain[got_links.len() - 1];
-                is_upstream(o) && !is_upstream(t)
+                is_upstream(o) && t.ends_with("cached.test.")
             };
         if acceptable_cut {
             bump(&mut res.stats, "probe.forwarder_answer_ended_at_locally_known_name");
